@@ -79,7 +79,7 @@ theorem tdLine_refines (st : State F) (fuel n : Nat) (pan : List Tgt) (cx : Line
     (hpan : PanRel c st pan)
     (hout : ∀ p, p < c.W → (st.fa "output_img").getD (n * c.W + p) Fl.nan = Fl.nan)
     (r : State F) (hr : exec fuel tdLine st = r) (rs : List Tgt × RowOut) (hrs0 : rs = rowStep c tg true n pan (blankRow c)) :
-    r.ctl = .run ∧ PassFrame c.W st r ∧ PanRel c r rs.1 ∧
+    r.ctl = .run ∧ PassFrame c.W st r ∧ PanRel c r rs.1 ∧ rs.2.lp.length = c.W ∧ rs.2.al.length = c.W ∧
     (r.fa "output_img").length = c.H * c.W ∧ (r.fa "img_distance").length = c.H * c.W ∧
     (∀ p, p < c.W → lpRel emb ((r.fa "img_distance").getD (n * c.W + p) Fl.nan) (rs.2.lp.getD p none) ∧
       (r.fa "output_img").getD (n * c.W + p) Fl.nan =
@@ -171,7 +171,9 @@ theorem tdLine_refines (st : State F) (fuel n : Nat) (pan : List Tgt) (cx : Line
   rw [hrs]
   have fr5 : RowFrame st4 r := f5.row (by intro a ha; simp at ha; rcases ha with e | e <;> simp [e])
   have fr35 : RowFrame st3 r := f4.trans fr5
-  refine ⟨c5, ⟨?_, ?_, ?_, ?_, ?_, ?_, ?_, ?_, ?_, ?_, ?_, ?_⟩, ⟨r4.mlen_pan, ?_⟩, l5o, l5d, ?_, ?_⟩
+  refine ⟨c5, ⟨?_, ?_, ?_, ?_, ?_, ?_, ?_, ?_, ?_, ?_, ?_, ?_⟩, ⟨r4.mlen_pan, ?_⟩, r4.mlen_lp,
+    by rw [Prox.mergeNr_length _ _ (by rw [Prox.mergeNr_length _ _ (by simp [ln1]), r4.mlen_nr]; simp),
+      Prox.mergeNr_length _ _ (by simp [ln1])]; simp, l5o, l5d, ?_, ?_⟩
   · intro a ha; rw [fr35.shp, sh3 a ha]
   · rw [fr35.shp]; exact cx3.lp
   · rw [f5.fa _ (by decide)]; exact r4.len_lp
